@@ -74,3 +74,21 @@ Theorem C11_follower_reports_leaders_read_index : forall st r m e r' err,
   r_read_states r' = r_read_states r ++ [mkRS (m_index m) (e_data e)].
 Proof. exact RoleProofs.follower_reports_leaders_read_index. Qed.
 Print Assumptions C11_follower_reports_leaders_read_index.
+
+(* a confirmed read was acknowledged by a majority of the incoming voters AND by a majority of the
+   outgoing voters of a joint configuration (QuorumProofs.majority_acked: more than half of the
+   half's voters acknowledged a position at least that high) *)
+Theorem C11_confirmed_by_both_majorities : forall ro c0 c1 ro' out,
+  ro_maybe_advance ro c0 c1 = Ok (ro', out) -> out <> [] ->
+  (c0 <> [] -> QuorumProofs.majority_acked c0 (ro_acks ro) (ro_confirmed ro')) /\
+  (c1 <> [] -> QuorumProofs.majority_acked c1 (ro_acks ro) (ro_confirmed ro')).
+Proof. exact LocalProofs.ro_advance_both_majorities. Qed.
+Print Assumptions C11_confirmed_by_both_majorities.
+
+(* incoming {1,4,5}, outgoing {1,2,3}: the acknowledgements of 1 and 4 (a majority of the incoming
+   voters only) confirm nothing; with 2 added the request is confirmed *)
+Example C11_joint_read_nonvacuous :
+  let ro := fun acks => mkRO ReadOnlySafe acks [(msg0 MsgReadIndex, 7)] 0 in
+  ro_maybe_advance (ro [(1, 1); (4, 1)]) [1; 4; 5] [1; 2; 3] = Ok (ro [(1, 1); (4, 1)], []) /\
+  exists ro', ro_maybe_advance (ro [(1, 1); (4, 1); (2, 1)]) [1; 4; 5] [1; 2; 3] = Ok (ro', [(msg0 MsgReadIndex, 7)]).
+Proof. split; [vm_compute; reflexivity | eexists; vm_compute; reflexivity]. Qed.
